@@ -39,7 +39,7 @@ def gen(rng, tier, index):
     intervals = rng.choice([30, 50, 80]) if tier == "quick" else rng.choice([50, 100, 200, 400])
     if rate:
         intervals = 380
-    cycles = min(trefi * intervals, 40000 if tier == "quick" else 160000)
+    cycles = min(trefi * intervals, 40000 if tier == "quick" else 80000)
     ports = []
     kind = rng.choice(["saturate", "saturate", "hammer", "allwrite", "allread", "pingpong", "idle"])
     if rate:
